@@ -1789,10 +1789,21 @@ def per_node(v):
         return per_node(v.ident)
     if isinstance(v, Ident):
         parts = [v.prefix] + ([v.suffix] if v.suffix is not None else [])
+        shared = None
         for p in parts:
             for w in walk(p):
                 if isinstance(w, IdOf):
+                    # the identity of a *field* of the node (its name, a
+                    # constant string; a child that several nodes may hold)
+                    # is not the identity of the node
+                    if isinstance(w.arg, Field) and isinstance(
+                            w.arg.base, Param) and w.arg.attr != "names":
+                        shared = show(w)
+                        continue
                     return True, "embeds %s" % show(w)
+        if shared is not None:
+            return False, "%s is the identity of a field that nodes may " \
+                          "share, not of the node" % shared
         if v.suffix is None and v.via == "identifier":
             return False, "identifier() without suffix: id(prefix) of a " \
                           "string constant is the same for every node"
